@@ -808,6 +808,12 @@ class Interp:
             key = (m.relpath, name)
             if key in self.builtins:
                 return self.builtins[key]
+            if isinstance(node, (ast.Dict, ast.Tuple, ast.List)):
+                # a module-level table of names / constants (e.g. STEREO_CLASSES): evaluated in the module's scope
+                try:
+                    return self.ev(node, Frame(m, {}))
+                except OutOfSubset:
+                    pass
             if soft:
                 return NotHandled
             raise OutOfSubset(f"module constant {name}")
@@ -1535,6 +1541,12 @@ def _b_hasattr(it, o, name):
         raise
 
 
+def _b_type(it, x):
+    if isinstance(x, Obj):
+        return ClassRef(x.cls)
+    raise OutOfSubset("type() of a non-object")
+
+
 def _b_hash(it, x):
     return HashVal(x)
 
@@ -1569,7 +1581,23 @@ def _b_enumerate(it, x, start=0):
     return list(enumerate(it.iterate(x), start))
 
 
+class ListIter:
+    def __init__(self, items):
+        self.items, self.pos = list(items), 0
+
+
+def _b_iter(it, x):
+    return ListIter(it.iterate(x))
+
+
 def _b_next(it, g, *default):
+    if isinstance(g, ListIter):
+        if g.pos < len(g.items):
+            g.pos += 1
+            return g.items[g.pos - 1]
+        if default:
+            return default[0]
+        raise PyRaise("StopIteration")
     if isinstance(g, GenIter):
         items = g.take_all()
         if items:
@@ -1657,6 +1685,7 @@ for _n, _f in [
     ("isinstance", _b_isinstance),
     ("hasattr", _b_hasattr),
     ("hash", _b_hash),
+    ("type", _b_type),
     ("range", _b_range),
     ("itertools.permutations", _b_permutations),
     ("itertools.combinations", _b_combinations),
@@ -1666,6 +1695,7 @@ for _n, _f in [
     ("zip", _b_zip),
     ("enumerate", _b_enumerate),
     ("next", _b_next),
+    ("iter", _b_iter),
     ("int", _b_int),
     ("abs", _b_abs),
     ("sorted", _b_sorted),
